@@ -7,7 +7,7 @@
    of ECMA-262 clause 13 for the operator fragment; inf is the [In] parameter).  All theorems quantify over all
    token lists / trees; tokens are (type, preceded-by-line-terminator, bytes) as Parser.next() delivers them. *)
 From Verif Require Import Common.Base Gen.PrattTable JsExpr.Syntax JsExpr.Pratt JsExpr.Grammar
-  JsExpr.Equiv JsExpr.Balance JsExpr.Proofs JsExpr.Stmts.
+  JsExpr.Equiv JsExpr.Balance JsExpr.Proofs JsExpr.Stmts JsExpr.StmtModel JsExpr.Stmts2.
 
 (* ---- the generated operator table ----------------------------------------------------------------------------------- *)
 
@@ -139,6 +139,22 @@ Print Assumptions stmt_needs_terminator.
 Theorem program_of_statements_partial : forall ts l, prog ts l -> parse_program ts = Ok l.
 Proof. exact program_of_statements_proof. Qed.
 Print Assumptions program_of_statements_partial.
+
+(* The statement fragment (JsExpr/StmtModel.v: a second model, of the statement forms of parseStmt that wrap parseExpression,
+   tied to js.Parse by its own correspondence run; JsExpr/Stmts2.v): every program built from expression statements, empty
+   statements, labelled statements, blocks, if / else, while and do-while ([xprog] / [xone] / [xlist]: the productions with
+   their trees; an ExpressionStatement ends at ';' on any line, at a line break before a token that cannot continue it, at the
+   '}' of its block or at the end of the input; do-while takes its ';' on any line or none) is parsed, with
+   Options.WhileToFor off, to exactly the statement list the grammar prescribes.
+   PARTIAL, MISSING: throw, break / continue and var declarations (in the model and its correspondence run, not yet in
+   [xone]); for, switch, try, with, return, function / class / let / const declarations, import / export (outside the
+   model: searched by the generator oracle); a statement that is not terminated by ';' directly followed by a ';' on the
+   same line (`{};`, `if(a)b;;`: KNOWN_FINDINGS c03-tree:empty-statement-same-line; [xone] leaves that shape out);
+   Options.WhileToFor (the model covers it, the tree is then a for statement by design). *)
+Theorem program_of_statement_fragment_partial :
+  forall ts l, xprog ts l -> parse_xprogram false ts = Ok l.
+Proof. exact program_of_statement_fragment_proof. Qed.
+Print Assumptions program_of_statement_fragment_partial.
 
 (* ---- the grammar relation ------------------------------------------------------------------------------------------------------------- *)
 
